@@ -184,6 +184,9 @@ type LoaderStep struct {
 	// OldMtime: the file is put in place with a modification time older than that of every
 	// file loaded before (a restored backup, cp -p, rsync -a, a clock stepped back)
 	OldMtime bool `json:"old_mtime,omitempty"`
+	// Replace: the document is written next to the file and renamed over it (what editors
+	// and config management do) instead of rewriting the file in place
+	Replace bool `json:"replace,omitempty"`
 	// NoEvent: the write is not followed by a change event (e.g. lost by the notifier)
 	NoEvent bool `json:"no_event,omitempty"`
 }
